@@ -640,12 +640,12 @@ def run(ctx):
         cases, fams = gen_cases(ctx)
         ctx.leg('GEN', families=fams)
         if not only or 'S2C' in only:
-            s2c(ctx, parsers, cases, int(os.environ.get('VERIF_C06_TOKENS', ctx.pick(200000, 1500000))))
+            s2c(ctx, parsers, cases, int(os.environ.get('VERIF_C06_TOKENS', ctx.pick(170000, 1200000))))
         mc_join(mc_thread)
         mc_thread = None
         if not only or 'C2S' in only:
             scale = float(os.environ.get('VERIF_C06_C2S_SCALE', 1))       # development only
-            c2s(ctx, parsers, cases, int(ctx.pick(3500, 20000) * scale), int(ctx.pick(1500, 8000) * scale))
+            c2s(ctx, parsers, cases, int(ctx.pick(2500, 16000) * scale), int(ctx.pick(1000, 6000) * scale))
     finally:
         parsers.close()
         if mc_thread is not None:
